@@ -95,6 +95,7 @@ type HarnessReport struct {
 	SolverUnsat    int
 	SolverUnknown  int
 	SolverTime     time.Duration
+	ModelTime      time.Duration
 	Obligations    int
 	Discharged     int
 	Violations     []*Violation
@@ -132,6 +133,16 @@ type pathCtx struct {
 	notes     []string
 	trace     []string
 	fs        map[string]value // scratch for natives
+	model     Model            // an assignment known to satisfy pc (nil = none cached)
+	modelMemo map[int]*Term
+	blind     int // solver-decided branches since the last cached model
+	pending   []pendingAssert
+}
+
+type pendingAssert struct {
+	c   *Term
+	id  string
+	msg string
 }
 
 type knownRegion struct {
@@ -150,14 +161,27 @@ func (i *interpreter) abort(kind, format string, args ...interface{}) {
 }
 
 // syncSolver makes sure the whole path condition is asserted in the solver.
+//
+// The solver keeps one push level per path-condition element; consecutive
+// paths share their common prefix (depth-first order makes it long), so only
+// the differing suffix is popped and re-asserted.
 func (i *interpreter) syncSolver() {
 	p := i.path
 	if !p.pushed {
-		i.solver.Push()
+		// first use on this path: find the prefix shared with what the solver already holds
+		k := 0
+		for k < len(i.solverPC) && k < len(p.pc) && i.solverPC[k] == p.pc[k] {
+			k++
+		}
+		i.solver.PopTo(k)
+		i.solverPC = i.solverPC[:k]
+		p.asserted = k
 		p.pushed = true
 	}
 	for p.asserted < len(p.pc) {
+		i.solver.Push()
 		i.solver.Assert(p.pc[p.asserted])
+		i.solverPC = append(i.solverPC, p.pc[p.asserted])
 		p.asserted++
 	}
 }
@@ -166,7 +190,70 @@ func (i *interpreter) addPC(c *Term) {
 	if c.IsConst() {
 		return
 	}
-	i.path.pc = append(i.path.pc, c)
+	p := i.path
+	p.pc = append(p.pc, c)
+	if p.model != nil {
+		if v := i.ts.Eval(c, p.model, p.modelMemo); !(v.IsConst() && v.cv == 1) {
+			p.model, p.modelMemo = nil, nil
+		}
+	}
+}
+
+// underModel evaluates c under the cached model: +1 true, -1 false, 0 unknown/no model.
+func (i *interpreter) underModel(c *Term) int {
+	p := i.path
+	if p.model == nil {
+		return 0
+	}
+	v := i.ts.Eval(c, p.model, p.modelMemo)
+	if v.IsConst() && v.sort == sBool {
+		if v.cv == 1 {
+			return 1
+		}
+		return -1
+	}
+	return 0
+}
+
+// fetchModel caches the solver's current model; call right after a sat check
+// whose scope equals pc plus extra (extra is about to be added to pc).
+func (i *interpreter) fetchModel() {
+	p := i.path
+	vars := make([]*Term, 0, len(p.draws))
+	for _, d := range p.draws {
+		vars = append(vars, d.Term)
+	}
+	m, err := i.solver.GetModel(vars)
+	if err != nil {
+		p.model, p.modelMemo = nil, nil
+		return
+	}
+	p.model, p.modelMemo = m, map[int]*Term{}
+}
+
+// feasibleFetch is feasible() that also caches the model when the answer is sat.
+func (i *interpreter) feasibleFetch(c *Term) bool {
+	if c.IsConst() {
+		return c.cv == 1
+	}
+	i.syncSolver()
+	i.queries++
+	i.solver.Push()
+	i.solver.Assert(c)
+	r := i.solver.Check()
+	i.path.blind++
+	if r == "sat" && i.path.blind > 16 {
+		// get-value costs as much as ~30 feasibility queries: only worth it on paths
+		// that keep branching without a model
+		i.fetchModel()
+		i.path.blind = 0
+	}
+	i.solver.Pop()
+	if r == "unknown" {
+		i.noteInconclusive("solver unknown on branch feasibility: " + i.solver.lastErr)
+		return true
+	}
+	return r == "sat"
 }
 
 func (i *interpreter) noteInconclusive(msg string) {
@@ -213,29 +300,32 @@ func (i *interpreter) branch(c *Term) bool {
 	if len(p.decs) >= i.cfg.MaxDecisions {
 		i.abort("budget", "more than %d symbolic decisions on one path (unwinding bound)", i.cfg.MaxDecisions)
 	}
-	ft := i.feasible(c)
-	var ff bool
-	if !ft {
-		ff = true // PC is feasible, so the other side must be
-	} else {
-		ff = i.feasible(i.ts.Not(c))
+	i.flushAsserts()
+	take := func(side bool, otherFeasible bool) bool {
+		if otherFeasible {
+			alt := append(append([]decision(nil), p.decs...), decision{Taken: !side})
+			i.ex.push(alt)
+		}
+		p.decs = append(p.decs, decision{Taken: side})
+		if side {
+			i.addPC(c)
+		} else {
+			i.addPC(i.ts.Not(c))
+		}
+		return side
 	}
-	switch {
-	case ft && ff:
-		alt := append(append([]decision(nil), p.decs...), decision{Taken: false})
-		i.ex.push(alt)
-		p.decs = append(p.decs, decision{Taken: true})
-		i.addPC(c)
-		return true
-	case ft:
-		p.decs = append(p.decs, decision{Taken: true})
-		i.addPC(c)
-		return true
-	default:
-		p.decs = append(p.decs, decision{Taken: false})
-		i.addPC(i.ts.Not(c))
-		return false
+	// follow the side the cached model already satisfies: the model stays valid
+	// along the path and only the other side needs a query
+	switch i.underModel(c) {
+	case 1:
+		return take(true, i.feasible(i.ts.Not(c)))
+	case -1:
+		return take(false, i.feasible(c))
 	}
+	if i.feasibleFetch(c) {
+		return take(true, i.feasible(i.ts.Not(c)))
+	}
+	return take(false, false) // PC is feasible, so the other side must be
 }
 
 // pick returns a concrete value that t can take under the path condition.
@@ -249,11 +339,21 @@ func (i *interpreter) pick(t *Term) uint64 {
 		p.decs = append(p.decs, d)
 		return d.Val
 	}
+	i.flushAsserts()
+	if p.model != nil {
+		if c := i.ts.Eval(t, p.model, p.modelMemo); c.IsConst() {
+			p.decs = append(p.decs, decision{Pick: true, Val: c.cv})
+			return c.cv
+		}
+	}
 	i.syncSolver()
 	i.queries++
 	i.solver.Push()
 	i.solver.define(t)
 	r := i.solver.Check()
+	if r == "sat" {
+		i.fetchModel()
+	}
 	var v uint64
 	if r == "sat" {
 		// fetch the value of t via a fresh variable equal to it
@@ -277,6 +377,8 @@ func (i *interpreter) pick(t *Term) uint64 {
 
 func (i *interpreter) evalInSolver(t *Term) (uint64, error) {
 	s := i.solver
+	t0 := time.Now()
+	defer func() { s.Stats.ModelTime += time.Since(t0) }()
 	s.send("(get-value (" + t.ref() + "))")
 	s.in.Flush()
 	txt, err := s.readSexp()
@@ -383,6 +485,52 @@ func (i *interpreter) doAssert(cond value, id string, isPanic bool, msg string) 
 	p.asserts++
 	i.rep.obligations++
 	i.rep.assertIDs[id]++
+	if c.IsConst() && c.cv == 1 {
+		i.rep.discharged++
+		return
+	}
+	if !isPanic && !i.noLazy && len(p.known) == 0 && !(c.IsConst() && c.cv == 0) {
+		// decided together with the following assertions at the next branch / path end
+		p.pending = append(p.pending, pendingAssert{c, id, msg})
+		return
+	}
+	i.flushAsserts()
+	i.assertNow(c, id, isPanic, msg)
+}
+
+// flushAsserts decides all pending assertions with one query:
+// PC ∧ ¬(c1 ∧ ... ∧ cn) unsat  <=>  every ck holds under PC ∧ c1..c(k-1).
+func (i *interpreter) flushAsserts() {
+	p := i.path
+	if len(p.pending) == 0 {
+		return
+	}
+	pend := p.pending
+	p.pending = nil
+	conj := i.ts.Bool(true)
+	for _, a := range pend {
+		conj = i.ts.And(conj, a.c)
+	}
+	if i.underModel(conj) != -1 {
+		neg := i.ts.Not(conj)
+		i.syncSolver()
+		i.queries++
+		r := i.solver.CheckWith(neg)
+		if r == "unsat" {
+			i.rep.discharged += len(pend)
+			for _, a := range pend {
+				i.addPC(a.c)
+			}
+			return
+		}
+	}
+	// something fails (or unknown): decide one by one to name the assertion
+	for _, a := range pend {
+		i.assertNow(a.c, a.id, false, a.msg)
+	}
+}
+
+func (i *interpreter) assertNow(c *Term, id string, isPanic bool, msg string) {
 	if c.IsConst() && c.cv == 1 {
 		i.rep.discharged++
 		return
@@ -568,6 +716,7 @@ func (i *interpreter) renderUnder(v value, t types.Type, m Model, memo map[int]*
 // witness extracts a tape for the current (complete) path.
 func (i *interpreter) witness() (map[string]uint64, []string) {
 	p := i.path
+	i.flushAsserts()
 	if len(p.draws) == 0 {
 		var obs []string
 		for _, o := range p.observes {
@@ -575,19 +724,23 @@ func (i *interpreter) witness() (map[string]uint64, []string) {
 		}
 		return map[string]uint64{}, obs
 	}
-	i.syncSolver()
-	i.queries++
-	r := i.solver.Check()
-	if r != "sat" {
-		return nil, nil
-	}
-	vars := make([]*Term, 0, len(p.draws))
-	for _, d := range p.draws {
-		vars = append(vars, d.Term)
-	}
-	m, err := i.solver.GetModel(vars)
-	if err != nil {
-		return nil, nil
+	m := p.model
+	if m == nil {
+		i.syncSolver()
+		i.queries++
+		r := i.solver.Check()
+		if r != "sat" {
+			return nil, nil
+		}
+		vars := make([]*Term, 0, len(p.draws))
+		for _, d := range p.draws {
+			vars = append(vars, d.Term)
+		}
+		var err error
+		m, err = i.solver.GetModel(vars)
+		if err != nil {
+			return nil, nil
+		}
 	}
 	tape := map[string]uint64{}
 	for _, d := range p.draws {
